@@ -38,11 +38,12 @@ TRUSTED_BASE = ["pvc (own VC generator: /verif/pvc)", "z3 5.1", "python ast modu
 
 
 def run_worker(args):
-    shape, seed, container, order_seed, hashseed, cse, keep = args
+    shape, seed, container, order_seed, hashseed, cse, keep = args[:7]
+    warmup = args[7] if len(args) > 7 else False
     env = dict(os.environ, PYTHONHASHSEED=str(hashseed), FORMAK_REPO=REPO)
     if keep:
         env["C15_KEEP_TEXT"] = "1"
-    cmd = [sys.executable, WORKER, str(shape[0]), str(shape[1]), str(shape[2]), ",".join(str(x) for x in shape[3]), str(seed), container, str(order_seed), "1" if cse else "0"]
+    cmd = [sys.executable, WORKER, str(shape[0]), str(shape[1]), str(shape[2]), ",".join(str(x) for x in shape[3]), str(seed), container, str(order_seed), "1" if cse else "0", "1" if warmup else "0"]
     out = subprocess.run(cmd, capture_output=True, text=True, env=env, timeout=600)
     for ln in out.stdout.splitlines():
         if ln.startswith("C15DIGEST "):
@@ -69,7 +70,8 @@ def variants(run, definition, n_hash, n_orders):
     for h in range(n_hash):
         for o in range(n_orders):
             for container in ("set", "list"):
-                out.append((shape, seed, container, 100 + o, 1 + 7 * h + run.seed % 5, True, False))
+                # every other variant generates a differently shaped definition first (process-level state must not leak)
+                out.append((shape, seed, container, 100 + o, 1 + 7 * h + run.seed % 5, True, False, (h + o + (container == "list")) % 2 == 1))
     return out
 
 
@@ -96,7 +98,7 @@ def sweep(run, definitions, n_hash, n_orders):
                 fails += 1
                 which = "header" if dig.get("regenerated_header_sha256") != dig["header_sha256"] else "source"
                 ob = run.prove(f"C15.native.same_output_when_generated_twice_in_one_process[{fails}]", [], z3.BoolVal(False), function="generation in subprocesses (PYTHONHASHSEED x declaration order x container)")
-                run.findings.append(Finding(ob.name, "regen", f"definition shape {[key[0][0], key[0][1], key[0][2], list(key[0][3])]} seed {key[1]}: the second generation in the same process (hashseed {args[4]}, order {args[3]}, {args[2]}) produced a different {which}", {"language": "python", "inputs": {"shape": [key[0][0], key[0][1], key[0][2], list(key[0][3])], "seed": key[1], "a": {"hashseed": args[4], "order_seed": args[3], "container": args[2]}, "b": {"hashseed": args[4], "order_seed": args[3], "container": args[2]}, "regenerate": True}, "oracle_verdict": [f"{which} differs on regeneration"]}, True))
+                run.findings.append(Finding(ob.name, "regen", f"definition shape {[key[0][0], key[0][1], key[0][2], list(key[0][3])]} seed {key[1]}: the second generation in the same process (hashseed {args[4]}, order {args[3]}, {args[2]}) produced a different {which}", {"language": "python", "inputs": {"shape": [key[0][0], key[0][1], key[0][2], list(key[0][3])], "seed": key[1], "a": {"hashseed": args[4], "order_seed": args[3], "container": args[2], "warmup": args[7]}, "b": {"hashseed": args[4], "order_seed": args[3], "container": args[2], "warmup": args[7]}, "regenerate": True}, "oracle_verdict": [f"{which} differs on regeneration"]}, True))
                 break
         for args, dig in lst[1:]:
             diff = first_difference(ref, dig)
@@ -104,7 +106,7 @@ def sweep(run, definitions, n_hash, n_orders):
                 fails += 1
                 ob = run.prove(f"C15.native.same_output_for_every_seed_order_container[{fails}]", [], z3.BoolVal(False), function="generation in subprocesses (PYTHONHASHSEED x declaration order x container)")
                 a, b = ref_args, args
-                run.findings.append(Finding(ob.name, "sweep", f"definition shape {[key[0][0], key[0][1], key[0][2], list(key[0][3])]} seed {key[1]}: (hashseed {a[4]}, order {a[3]}, {a[2]}) and (hashseed {b[4]}, order {b[3]}, {b[2]}) differ in {diff}", {"language": "python", "inputs": {"shape": [key[0][0], key[0][1], key[0][2], list(key[0][3])], "seed": key[1], "a": {"hashseed": a[4], "order_seed": a[3], "container": a[2]}, "b": {"hashseed": b[4], "order_seed": b[3], "container": b[2]}}, "oracle_verdict": [diff]}, True))
+                run.findings.append(Finding(ob.name, "sweep", f"definition shape {[key[0][0], key[0][1], key[0][2], list(key[0][3])]} seed {key[1]}: (hashseed {a[4]}, order {a[3]}, {a[2]}{', after generating another definition' if a[7] else ''}) and (hashseed {b[4]}, order {b[3]}, {b[2]}{', after generating another definition' if b[7] else ''}) differ in {diff}", {"language": "python", "inputs": {"shape": [key[0][0], key[0][1], key[0][2], list(key[0][3])], "seed": key[1], "a": {"hashseed": a[4], "order_seed": a[3], "container": a[2], "warmup": a[7]}, "b": {"hashseed": b[4], "order_seed": b[3], "container": b[2], "warmup": b[7]}}, "oracle_verdict": [diff]}, True))
                 break
     run.bounded.append({"what": "sha256 of generated EKF header/source and plain-model header/source, and the python layout (arglists, named-vector layouts, noise matrices, calibration vector), compared across subprocesses", "bound": f"{len(definitions)} definitions x {n_hash} PYTHONHASHSEED values x {n_orders} declaration/insertion orders x {{set, list}} (names include pairs differing only in capitalisation)", "failures": fails, "counted_as_proved": False})
     ob = run.prove("C15.native.sweep_completed", [], z3.BoolVal(True), function="generation in subprocesses (PYTHONHASHSEED x declaration order x container)")
@@ -134,7 +136,7 @@ def replay_file(payload):
     res = []
     for side in ("a", "b"):
         v = inp[side]
-        res.append(run_worker((shape, inp["seed"], v["container"], v["order_seed"], v["hashseed"], True, True)))
+        res.append(run_worker((shape, inp["seed"], v["container"], v["order_seed"], v["hashseed"], True, True, v.get("warmup", False))))
     (a_args, a, ea), (b_args, b, eb) = res
     if a is None or b is None:
         print("replay C15: worker failed", ea or eb)
